@@ -470,6 +470,7 @@ func generatedInput(c *Ctx, l *core.Lane) (data []byte, name string, fmap []gen.
 		o.Surround, o.Use64 = l.Bool(), l.Bool()
 		o.Tail = c.L(l.Name + ":x").Intn(3)
 		o.Brands = c.L(l.Name + ":x").Intn(12)
+		o.BrandsNoMajor = c.L("gen:y").Chance(1, 3)
 		if y := c.L("gen:y"); y.Chance(1, 3) {
 			o.Top64 = 1 + y.Intn(7)
 		}
